@@ -14,9 +14,10 @@ def gen_cases(run, count, release=True):
     return [json.loads(l) for l in out.splitlines() if l.startswith("{")]
 
 def case_term(c):
-    return "(%s, %s, %s, %s, %s)" % ("true" if c["host"] == "core" else "false", c["prog"], c["handlers"], c["acts"], c["impl"])
+    return "(%s, %s, %s, %s, %s, %s)" % ("true" if c["host"] == "core" else "false", "true" if c.get("drained") else "false",
+                                         c["prog"], c["handlers"], c["acts"], c["impl"])
 
-def eval_cases(run, prop, cases, fn="verdicts_rt"):
+def eval_cases(run, prop, cases, fn):
     nsh = 16
     shards = [cases[i::nsh] for i in range(nsh)]
     shards = [s for s in shards if s]
@@ -28,3 +29,55 @@ def eval_cases(run, prop, cases, fn="verdicts_rt"):
             run.oblige("case-evaluation shard (%s)" % prop, False, raw[-1200:]); continue
         out += list(zip(sh, vals[0]))
     return out
+
+RULES = {
+ "C01": "programs of the task/command language (coq/Rt/Lang.v) generated from the seed: depth 0-4 combinator trees over tasks with emit/notify/request/stream-loop/spawn/join/abort-task/self-wake; one third run under a real Core with a handler table (events trigger further commands), a Noop probe after every call in half of those; schedule chosen while the implementation runs (resolve live/late/repeated, drop, abort, events). Non-trivial = the case contains at least one request, stream, spawn or nested command (size >= 4) - counted distinct by (program, schedule).",
+}
+def nontrivial(c):
+    return c["size"] >= 4 and any(k in c["acts"] for k in ("AResolve", "ADropReq", "AAbort"))
+
+def check_generic(run, prop, fn, only_host=None, replay=None):
+    C.proof_stage(run, prop)
+    count = 3000 if run.tier == "quick" else 60000
+    cases = gen_cases(run, count)
+    if replay:
+        cases = json.load(open(replay)).get("cases", cases)
+    res = eval_cases(run, prop, cases, fn)
+    hist = collections.Counter(); ahist = collections.Counter(); hosts = collections.Counter(); sizes = collections.Counter()
+    v1, v2, v3 = [], [], []
+    for c, v in res:
+        hosts[c["host"]] += 1; sizes[min(c["size"] // 5 * 5, 40)] += 1
+        for k, n in c.get("hist", {}).items(): hist[k] += n
+        for k, n in c.get("ahist", {}).items(): ahist[k] += n
+        run.note_case((c["prog"], c["handlers"], c["acts"]), nontrivial=nontrivial(c))
+        run.cov["traces_validated_against_impl"] += 1
+        if v == 1: v1.append(c)
+        elif v == 2: v2.append(c)
+        elif v == 3: v3.append(c)
+    key = lambda c: c["size"] + len(c["acts"])
+    v1.sort(key=key); v2.sort(key=key)
+    slim = lambda c: {k: c[k] for k in ("idx", "seed", "host", "prog", "handlers", "acts", "impl", "drained")}
+    run.oblige("correspondence: runtime model trace = implementation trace on %d cases" % len(res), not v1 and len(res) == len(cases),
+               json.dumps([slim(c) for c in v1[:3]]))
+    run.oblige("%s_ok holds of every implementation trace" % prop, not v2, json.dumps([slim(c) for c in v2[:3]]))
+    run.oblige("model fuel sufficient on every case", not v3, json.dumps([slim(c) for c in v3[:2]]))
+    if v2:
+        run.violation(prop + "_ok", {"property": prop, "what": "the trace predicate %s_ok (coq/Rt/Check.v) fails on the implementation's own trace" % prop,
+                                     "cases": [slim(c) for c in v2[:10]],
+                                     "how_to_replay": "harness/src/bin/rt_run.rs <seed> <count> <idx> regenerates and re-runs the case; ./check %s --replay <this file> re-evaluates the stored traces" % prop})
+    elif v1 or v3:
+        run.violation("correspondence", {"property": prop, "what": "model and implementation traces differ; the property's trace predicate still holds on every implementation trace seen",
+                                         "broken": "correspondence Rt.Host (direct / under_core) vs crux_core", "cases": [slim(c) for c in (v1 + v3)[:10]]}, no_input=True)
+    run.cov["rule"] = RULES["C01"]
+    run.cov["samples"] = [slim(c) for c in cases[:2] + cases[-1:]]
+    run.extra["distribution"] = {"hosts": dict(hosts), "size_buckets": {str(k): v for k, v in sorted(sizes.items())},
+                                 "constructors": dict(hist), "actions": dict(ahist)}
+    run.assumptions += ["Rust async lowering, futures 0.3 (mpsc unbounded, AtomicWaker, forward), crossbeam-channel, slab and Arc counts are modelled by hand (coq/Rt/Rt.v) and tied by correspondence only",
+                        "select!/join! inside one task and the legacy capability API are not in the task language yet",
+                        "user futures honour the Future/Waker contract; a CommandContext is used only inside its own command's subtree"]
+    run.trusted += ["hand-written model coq/Rt/{Lang,Rt,Host}.v", "harness/src/bin/rt_run.rs (interpreter building real Commands through the public API, generator, schedule chooser)", "lib/common.py parser of coqc output"]
+
+def check_C01(run, replay=None): check_generic(run, "C01", "verdicts_C01", replay=replay)
+def check_C03(run, replay=None): check_generic(run, "C03", "verdicts_C03", replay=replay)
+def check_C06(run, replay=None): check_generic(run, "C06", "verdicts_C06", replay=replay)
+def check_C07(run, replay=None): check_generic(run, "C07", "verdicts_C07", replay=replay)
